@@ -1,0 +1,18 @@
+//go:build verif
+
+package kvql
+
+// SimYield, when set by a deterministic-simulation harness, is called at
+// points of interest inside the library (between a cache lookup and the
+// computation it guards, between an aggregate's completion and its
+// projection, before a regexp is compiled, ...), so that the harness's
+// scheduler can switch to another simulated client exactly there. It is nil
+// by default and exists only in builds with the "verif" tag; the shipped
+// library is built from simyield_off.go, where simYield is an empty function.
+var SimYield func(site string)
+
+func simYield(site string) {
+	if SimYield != nil {
+		SimYield(site)
+	}
+}
